@@ -53,7 +53,7 @@ def gen_cases(tier, seed):
     cases = []
     for r in ROUTINES:
         for i in range(k):
-            cases.append(dict(kind="direct", routine=r,
+            cases.append(dict(kind="direct", routine=r, far=bool(i % 2),
                               seed=int(rng.integers(1 << 30)),
                               cost=6 if r in ("encoder", "mrq_cp", "ppo") else 3))
     for i in range(2 * k):
@@ -71,7 +71,7 @@ def run_case(case):
 
 
 # ------------------------------------------------------------------ builders
-def build(routine, rng):
+def build(routine, rng, far=False):
     """-> (call, objects dict, trainee names)"""
     import jax
     import jax.numpy as jnp
@@ -101,6 +101,10 @@ def build(routine, rng):
             return call, objs, {"q", "q_opt"}
         space = parts.box(rng)
         batch = parts.flat_batch(rng, N)
+        if far:
+            # rewards far from zero (Pendulum-like): every TD error of a fresh
+            # critic is large, the robust losses are in their linear regime
+            batch = batch._replace(reward=batch.reward * 0.1 - 12.0)
         if routine == "ts_ddpg":
             q, qt = parts.mlp(rng, 5, 1), parts.mlp(rng, 5, 1)
             pt = parts.tanh_policy(rng, space)
@@ -369,7 +373,8 @@ def run_direct(case):
     res = Result()
     rng = np.random.default_rng(case["seed"])
     routine = case["routine"]
-    ok, built = guarded(res, f"C05/raises/build/{routine}", build, routine, rng)
+    ok, built = guarded(res, f"C05/raises/build/{routine}", build, routine, rng,
+                        case.get("far", False))
     if not ok:
         return res
     call, objs, trainees = built
